@@ -16,7 +16,7 @@ import traceback
 HERE = os.path.dirname(os.path.abspath(__file__))
 sys.path.insert(0, os.path.dirname(HERE))
 
-from sim.core import Violation, derive_seed, jdump, make_rng, shape_hash  # noqa: E402
+from sim.core import Violation, derive_seed, jdump, make_rng, match_known, shape_hash  # noqa: E402
 
 
 def enable_compile_cache() -> None:
@@ -69,6 +69,8 @@ def main() -> int:
     result = {"worker": widx, "batches": [], "harness_errors": [], "violations": [], "other": []}
     ctxs: dict = {}
     max_viol = int(job.get("max_violations_per_worker", 2))
+    new_count = 0
+    known_recorded = 0
     try:
         enable_compile_cache()
         for b_i, batch in enumerate(job["batches"]):
@@ -131,16 +133,23 @@ def main() -> int:
                     if v["property"] != prop and len(result["other"]) < 20:
                         result["other"].append({"property": v["property"], "clause": v["clause"], "site": v.get("site", ""), "seed": seed})
                 if mine:
-                    rec = handle_violation(engine, plan, ctx, out, mine[0], prop, job)
+                    is_known = match_known(mine[0], job.get("known", [])) is not None
+                    if is_known and known_recorded >= 3:
+                        continue  # already documented by three replays from this worker; keep exploring
+                    rec = handle_violation(engine, plan, ctx, out, mine[0], prop, dict(job, no_shrink=job.get("no_shrink") or is_known))
                     result["violations"].append(rec)
-                    if len(result["violations"]) >= max_viol:
+                    if is_known:
+                        known_recorded += 1
+                    else:
+                        new_count += 1
+                    if new_count >= max_viol:
                         agg["truncated"] = True
                         break
             agg["shapes_nontrivial"] = sorted(agg["shapes_nontrivial"])
             agg["shapes_all"] = sorted(agg["shapes_all"])
             agg["wall_s"] = time.time() - t0
             result["batches"].append(agg)
-            if len(result["violations"]) >= max_viol:
+            if new_count >= max_viol:
                 break
     except BaseException as e:  # harness failure: classified apart from violations
         result["harness_errors"].append(
